@@ -1432,6 +1432,10 @@ impl DB {
 
                 // Replace old WAL state fields with new WAL values
                 self.set_wal(mutex_guard, new_wal_number, maybe_wal_writer.unwrap());
+                #[cfg(raindb_verif)]
+                crate::verif_hooks::events::emit(crate::verif_hooks::events::Event::Rotated {
+                    new_wal: new_wal_number,
+                });
 
                 log::info!("Create a new memtable and make it active.");
                 let new_memtable: Arc<Box<dyn MemTable>> =
